@@ -98,7 +98,7 @@ type vrDone struct {
 
 func vrPoolRound(seed int64, cfg vCfg, workers, iters int) (pool int, leak int, cntok bool) {
 	fcc := &vrFakeCC{}
-	gb := newBuilder().Build(fcc, balancer.BuildOptions{})
+	gb := balancer.Get(Name).Build(fcc, balancer.BuildOptions{}) // the registered builder instance, as gRPC does
 	bc := &GCPBalancerConfig{ApiConfig: vApiConfig(cfg)}
 	gb.UpdateClientConnState(balancer.ClientConnState{ResolverState: resolver.State{Addresses: vAddrs(1)}, BalancerConfig: bc})
 	for _, c := range fcc.conns {
@@ -387,7 +387,7 @@ type vsgEvent struct {
 
 func vsgRound(seed int64, max int) (pool int, news int) {
 	fcc := &vrFakeCC{}
-	gb := newBuilder().Build(fcc, balancer.BuildOptions{})
+	gb := balancer.Get(Name).Build(fcc, balancer.BuildOptions{}) // the registered builder instance, as gRPC does
 	cfg := vCfg{Min: 2, Max: max, Wm: 1}
 	bc := &GCPBalancerConfig{ApiConfig: vApiConfig(cfg)}
 	gb.UpdateClientConnState(balancer.ClientConnState{ResolverState: resolver.State{Addresses: vAddrs(1)}, BalancerConfig: bc})
@@ -487,7 +487,7 @@ func TestVerifStressGrowth(t *testing.T) {
 // must still rotate.
 func vrrRound(seed int64, n, workers, per int, wrap bool) (min, max int, res string) {
 	fcc := &vrFakeCC{}
-	gb := newBuilder().Build(fcc, balancer.BuildOptions{})
+	gb := balancer.Get(Name).Build(fcc, balancer.BuildOptions{}) // the registered builder instance, as gRPC does
 	cfg := vCfg{Min: n, Max: n, Wm: 100, Rr: true}
 	bc := &GCPBalancerConfig{ApiConfig: vApiConfig(cfg)}
 	gb.UpdateClientConnState(balancer.ClientConnState{ResolverState: resolver.State{Addresses: vAddrs(1)}, BalancerConfig: bc})
